@@ -170,12 +170,29 @@ def relink (cur : List Nat) (xs : List Nat) : List Nat := xs.foldl appendMove cu
 def bucket (u : List Ent) (out : List Nat) (gid : Nat) : List Nat :=
   (out.filterMap (fun i => u[i]?)).filter (fun e => e.gid == gid) |>.map Ent.id
 
-/-- `Graph.sort()`: `none` = `ValueError` (cycle; nothing is re-linked, _core.py:4006-4008),
-    `some r` = the new node order of the graph and of every nested graph. -/
+/-- A Graph object reachable through two attributes (or twice in one `GRAPHS` attribute) makes
+    `RecursiveGraphIterator` yield its nodes, and everything nested in them, once per path: the
+    universe then lists some node twice. -/
+def sharedGraph (u : List Ent) : Bool := !decide ((u.map Ent.id).Nodup)
+
+/-- `Graph.sort()`: `none` = `ValueError` (nothing is re-linked, _core.py:4006-4008),
+    `some r` = the new node order of the graph and of every nested graph.
+
+    Shared Graph objects (`sharedGraph`): `nodes` (a list) holds the shared nodes several times,
+    while `node_depth` / `node_predecessors` / `neg_node_index` (dicts keyed by node) hold them
+    once.  Every duplicated node is a direct node of an attribute graph whose owner is in the
+    universe, so its depth is positive and it is not in the initial queue; afterwards a node is
+    pushed only when its counter reaches 0, i.e. at most once.  Hence every distinct node is
+    popped at most once, `num_of_sorted_nodes <= #distinct nodes < len(nodes)`, and the cycle test
+    raises `ValueError` before any re-linking.  The model returns `none` in that case (this
+    branch is a derived summary, not a line-by-line transcription; it is compared with the real
+    code on generated shared-graph trees on every run).  All C12 theorems about successful sorts
+    assume `WF` (distinct ids), under which this branch is dead. -/
 def sortModel (g : MGraph) : Option (List (Nat × List Nat)) :=
   let u := nodesOf g
   let out := kahn u.length (predsAt u)
-  if out.length != u.length then none
+  if sharedGraph u then none
+  else if out.length != u.length then none
   else some ((graphsOf g).map (fun gc => (gc.1, relink gc.2 (bucket u out gc.1))))
 
 /-- what a caller observes: `(raised, node order of every graph afterwards)`; when the cycle check
